@@ -77,12 +77,28 @@ def gen(rng, tier):
     # a few non-ASCII / special characters
     for a, b in [("é", "e"), ("naïve", "naive"), ("\u0000a", "a\u0000"), ("a\nb", "ab\n"), ("😀x", "x😀"), ("\"q\"", "q")]:
         cases.append({"a": a, "b": b, "drive": "tighten"})
+    for i, c in enumerate(cases):      # alternate the status-output flag deterministically
+        c.setdefault("quiet", i % 2 == 1)
     return cases
 
 
 # ------------------------------------------------------------------------------------------------ implementation
 
 def impl(case):
+    """Every case runs with the default printer's `quiet` flag as the case says (status output is an API-visible
+    global that `EditDistance.tighten_bounds` consults; the result must not depend on it)."""
+    import graphtage.printer, graphtage.levenshtein
+    q = bool(case.get("quiet", False))
+    olds = (graphtage.printer.DEFAULT_PRINTER.quiet, graphtage.levenshtein.DEFAULT_PRINTER.quiet)
+    graphtage.printer.DEFAULT_PRINTER.quiet = q
+    graphtage.levenshtein.DEFAULT_PRINTER.quiet = q
+    try:
+        return _impl(case)
+    finally:
+        graphtage.printer.DEFAULT_PRINTER.quiet, graphtage.levenshtein.DEFAULT_PRINTER.quiet = olds
+
+
+def _impl(case):
     from graphtage import StringNode, StringEdit
     from graphtage.edits import Insert, Match, Remove
     a, b = case["a"], case["b"]
